@@ -30,6 +30,19 @@ def generate(chk, prop, tier, seed):
     for b in exh:
         b["fam"] = "exh"
     behs.extend(exh)
+    if prop == "C08":
+        # second exhaustive family: an END-name edit together with a comment / directive line (which BlockBase collects in front of
+        # the opening statement it then compares the END name with)
+        cfg = "Perturb_c08b_%s.cfg" % ("quick" if tier == "quick" else "thorough")
+        r = tlc.run("MCPerturb.tla", cfg, timeout=6000)
+        if not r.ok():
+            raise MachineryError("TLC failed on %s: %s %s" % (cfg, r.invariant_violated, r.error))
+        chk.add_tlc(r)
+        chk.cov["tlc_runs"].append({"cfg": cfg, "generated": r.generated, "distinct": r.distinct, "behaviours": len(r.beh), "wall_s": r.wall_s})
+        for b in r.beh:
+            if any(e["t"] == "ren" for e in b["ed"]):
+                b["fam"] = "exh-ren-cmt"
+                behs.append(b)
     cfg = "Perturb_%s_sim.cfg" % low
     r = tlc.run("MCPerturb.tla", cfg, workers=8, simulate=dict(num=SIM_NUM[tier], depth=220), seed=seed + 7, timeout=6000)
     if not r.ok():
